@@ -16,7 +16,8 @@
 (*   - after the first action ForeignSign is only taken by the entity that *)
 (*     did not sign first ("another entity adds its signature").           *)
 (* Starts whose distinguishing feature can only matter to the first        *)
-(* signature carry a small depth budget (start.depth).                     *)
+(* signature carry a small depth budget (start.depth); the one start that  *)
+(* is explored five actions deep allows two signatures (start.signs).      *)
 (***************************************************************************)
 EXTENDS JSONSign, Json
 
@@ -36,7 +37,8 @@ MainObj  == [a |-> "v1",   b |-> Absent, c |-> "d1",   unsigned |-> "u1"]
 BareObj  == [a |-> Absent, b |-> Absent, c |-> Absent, unsigned |-> Absent]
 FullObj  == [a |-> "v2",   b |-> "v1",   c |-> "d0",   unsigned |-> Absent]
 
-St(o, p, t, d) == [obj |-> o, pres |-> p, sigs |-> t, depth |-> d]
+St(o, p, t, d) == [obj |-> o, pres |-> p, sigs |-> t, depth |-> d, signs |-> 3]
+St2(o, p, t, d) == [St(o, p, t, d) EXCEPT !.signs = 2]
 
 StartsQuick ==
     {St(MainObj, p, "absent", 4) : p \in {"canon", "all"}}
@@ -45,17 +47,18 @@ StartsQuick ==
     \cup {St(FullObj, p, "absent", 3) : p \in {"order", "esc"}}
 
 StartsThorough ==
-    {St(MainObj, p, "absent", 5) : p \in {"canon", "all"}}
-    \cup {St(MainObj, p, "absent", 4) : p \in {"ws", "order", "esc"}}
+    {St2(MainObj, "all", "absent", 5)}                  \* five actions, at most two of them signatures
+    \cup {St(MainObj, p, "absent", 4) : p \in {"canon", "ws", "order", "esc"}}
     \cup {St(MainObj, p, t, 3) : p \in {"ws", "all"}, t \in SigTags \ {"absent"}}
-    \cup {St(BareObj, p, t, 4) : p \in {"canon", "all"}, t \in {"absent", "null"}}
-    \cup {St(FullObj, p, "absent", 4) : p \in GenPres}
+    \cup {St(BareObj, "canon", "absent", 4), St(BareObj, "all", "null", 4)}
+    \cup {St(FullObj, p, "absent", 4) : p \in {"order", "esc"}}
 
 \* the unrestricted specification (Spec, every action with every parameter) is model-checked from these
 StartsBase == {St(MainObj, "ws", "absent", 3), St(FullObj, "canon", "absent", 3)}
 
 UsedKeys == {slog[i].key : i \in 1..Len(slog)}
-KeyOK(k) == k # "P3" \/ "P2" \in UsedKeys
+\* (IF, not a disjunction: TLC would enumerate both disjuncts as separate sub-actions)
+KeyOK(k) == IF k = "P3" THEN "P2" \in UsedKeys ELSE TRUE
 
 GenNext ==
     \/ /\ hist = <<>>
